@@ -4,6 +4,8 @@ CONSTANTS
   CrashPoints = FALSE
   RollFaults = TRUE
   RollKills = FALSE
+  LogListFaults = FALSE
+  ListingDesign = "skip"
   RoomFaults = TRUE
   RollDesign = "rename"
   MaxCount = 3
